@@ -61,6 +61,15 @@ def cases(rng, tier, Case):
         for cfg in ("b8lep", "8bel", "nebmliatcfqhurHL8psxXS", "Cs8", "8Cs"):
             for nest in (100, 2):
                 res.append(Case("parse %s %d TREW %s" % (cfg, nest, hx(d)), "family", {"cfg": cfg, "nest": nest, "src": hx(d)}))
+    # marker runs of every length up to 140 (and some longer) tried as openers after an unmatched run of another length has
+    # completed the scan of the paragraph: tables indexed by run length (seed C01-12, fixed finding F1)
+    runs = list(range(1, 70)) + [70, 95, 96, 100, 127, 128, 129, 140] + ([255, 256, 257, 1000] if tier != "quick" else [256])
+    for k in runs:
+        for ch, cfg in (("`", "CsW"), ("`", "bp"), ("%", "Cs8"), ("~", "Cs"), ("*", "Cs"), ("_", "mp")):
+            if k > 40 and ch in "~*_" and k % 5:
+                continue
+            for d in ("a " + ch + " b " + ch * k, ch * 2 + " x " + ch * k + " y " + ch * (k + 1), "[" + ch * k + "](u) " + ch, ch * k + "a" + ch * (k - 1) + " " + ch * k + "b"):
+                res.append(Case("parse %s 100 TREW %s" % (cfg, hx(d)), "runs", {"cfg": cfg, "nest": 100, "src": hx(d)}, compare=k <= 140))
     for i, d in enumerate(ins):
         if tier == "quick" and i % 4:
             continue
